@@ -46,8 +46,12 @@ def request_in(t, remote, mid, token, *, mtype="CON", code=GET, obs=None, body=0
     return ["R", t, remote, mc_local, mtype, code, mid, token, obs, body]
 
 
-def respond(t, srv, *, code=CONTENT, body=0, last=True, obs=None, nr=0, mtype=None, rel=None, maxretr=4):
-    return ["P", t, srv, mtype, rel, code, obs, body, nr, maxretr, last]
+def respond(t, srv, *, code=CONTENT, body=0, last=True, obs=None, nr=0, mtype=None, rel=None, maxretr=4,
+            unsendable=False):
+    ev = ["P", t, srv, mtype, rel, code, obs, body, nr, maxretr, last]
+    if unsendable:
+        ev.append(True)
+    return ev
 
 
 # ---------------------------------------------------------------------------------------------
@@ -460,6 +464,18 @@ def c10_table(cfg=None):
             ev.append(far_end(ev))
             scripts.append({"events": ev, "rules": [], "draws": [], "tag": f"to-multicast:{rel}:{mtype}"})
     scripts += c10_token_reuse((cfg or {}).get("emptyAckDelay", 104857)) + c10_on_exchange()
+    # the handler's response cannot be serialised: the request still is acknowledged exactly once under its message
+    # ID, and what the application sends instead (a bare 5.00) is a message of its own (oracle only)
+    for mtype in ("CON", "NON"):
+        for speed in ("fast", "slow"):
+            t = 5000
+            ev = [request_in(t, 0, 310, "d1", mtype=mtype, body=1)]
+            ev.append(respond(t + (50000 if speed == "fast" else 200000), 0, body=6, unsendable=True))
+            ev.append(request_in(t + 2 * M, 0, 310, "d1", mtype=mtype, body=1))        # the peer's retransmission
+            ev.append(far_end(ev))
+            rules = [{"remote": 0, "mtype": "CON", "nth": 1, "do": "ack", "after": 400}]
+            scripts.append({"events": ev, "rules": rules, "draws": [], "oracle_only": "unsendable-response",
+                            "tag": f"unsendable:{mtype}:{speed}"})
     # a NON request under the message ID of an earlier, acknowledged CON request of that peer (piggy-backed, empty,
     # or the empty ACK of a suppressed response): whatever the duplicate table does, a NON is never acknowledged
     for how in ("piggy", "empty", "suppressed"):
